@@ -1,7 +1,8 @@
 #!/bin/bash
-# usage: sweep.sh "<props>" "<seeds>"
-export AGSIM_ROOT=$PWD
-mkdir -p evidence replays
+# usage: sweep.sh "<props>" "<seeds>"   (evidence and replays go to a scratch root, not to /verif)
+export AGSIM_ROOT=${SWEEP_ROOT:-/tmp/agsim-sweep}
+mkdir -p $AGSIM_ROOT/evidence $AGSIM_ROOT/replays
+cp "$(dirname "$0")/known_findings.json" $AGSIM_ROOT/
 for seed in $2; do for p in $1; do
   out=$(VERIF_SEED=$seed /verif/sim/target/release/agsim check $p quick 2>&1 | grep -E "class=|HARNESS|^runs=" | cut -c1-500)
   echo "seed=$seed $p: $out"
